@@ -23,7 +23,7 @@ def project(src, dst):
             if e["ev"] not in KEEP:
                 continue
             if e["ev"] == "path":
-                if e["stage"] not in ("best", "rewrite"):
+                if e["stage"] not in ("best", "rewrite", "split"):
                     continue
                 e["nodes"] = [{k: m[k] for k in NF} for m in e["nodes"]]
             out.write(json.dumps(e, separators=(",", ":")) + "\n")
